@@ -60,7 +60,7 @@ CLAIMED = {
         text='Theorems: a call designated to a forbid is exactly one fatal forbidden report with that expectation and the arguments, no action, '
              'no OK, no count change (forbid_report, forbid_no_action_no_ok); always satisfied+saturated, silent at end (forbid_flags, '
              'forbid_silent_at_end); the reported flag is invisible to matching/ordering so the n-th forbidden call behaves like the first '
-             '(forbid_repeat). The "as if it had never existed" erasure simulation is validated by the correspondence only (not proved). Second tie (translator): call_matcher::run_actions, sequence_handler_base::is_forbidden regenerated from /repo\'s current source by tools/cxx2lean.py on every run and proved equal to the model definitions (run_actions_order (forbidden flagged and reported before anything else), run_actions_sem, is_forbidden_tie). Spelling harness as C01.',
+             '(forbid_repeat). The "as if it had never existed" clause is proved for expectations in no sequence, over whole series of calls (Props/C07_Erasure.lean: erasure_call, erasure_calls, erasure_after_lifetime, designated_unaffected - erasing the expectation from the world (no record, on no list) commutes with every call it does not match, and with every call once it is off the lists; the event streams agree up to its own WITH evaluations and its own Tried entry); partial: a forbid placed IN a sequence (possible only through RT_TIMES(0)) is excluded, since a sequence step changes the cost of its successors by design. Second tie (translator): call_matcher::run_actions, sequence_handler_base::is_forbidden regenerated from /repo\'s current source by tools/cxx2lean.py on every run and proved equal to the model definitions (run_actions_order (forbidden flagged and reported before anything else), run_actions_sem, is_forbidden_tie). Spelling harness as C01.',
         ref='DESIGN.md §4 C07', technique='Lean 4 proof + model/implementation correspondence'),
     'C08': dict(
         text='Theorems: WITH clauses evaluated in order up to the first failing (with_short_circuit, matches_iff); side effects once each in '
